@@ -256,7 +256,7 @@ cpputest_longlong MockNamedValue::getLongLongIntValue() const
         return (long long int)value_.unsignedIntValue_;
     else if(type_ == "long int")
         return value_.longIntValue_;
-    else if(type_ == "unsigned long int")
+    else if(type_ == "unsigned long int" && (long long int)value_.unsignedLongIntValue_ >= 0)
         return (long long int)value_.unsignedLongIntValue_;
     else
     {
